@@ -148,4 +148,84 @@ theorem durLawsZ_float_false :
   · have := (h _ _ b1 b2).2.1; rw [b4] at this; cases this
   · have := D.spinnerBack _ _ a1 a2; rw [a3] at this; cases this
 
+/-! ### integer times: every clause holds, exactly -/
+
+/-- an integer-valued time within the parse limit: `z as f64`, `|z| ≤ 2147483647` (so not `−0.0`). -/
+def IntTime (x : Float) : Prop := ∃ z : Int, z.natAbs ≤ 2147483647 ∧ x = Float.ofInt z
+
+/-- an object with integer start time `a` and integer duration `k ≥ 0` whose end `a + k` is within the parse limit. -/
+def IntSpan (t d : Float) : Prop :=
+  ∃ a k : Int, -2147483647 ≤ a ∧ 0 ≤ k ∧ a + k ≤ 2147483647 ∧ t = Float.ofInt a ∧ d = Float.ofInt k
+
+theorem zero_eq_ofInt : (0 : Float) = Float.ofInt 0 := rfl
+
+theorem maxParse_eq_ofInt : (maxParseValue : Float) = Float.ofInt 2147483647 := rfl
+
+theorem neg_maxParse_eq_ofInt : -(maxParseValue : Float) = Float.ofInt (-2147483647) := by decide +kernel
+
+/-- an integer within ±2147483647 is within the parse limit. -/
+theorem inLimit_ofInt (z : Int) (hz : z.natAbs ≤ 2147483647) : InLimit (Float.ofInt z) := by
+  refine ⟨?_, ?_, FIE.isNaN_ofInt_scalar z (by omega)⟩
+  · rw [neg_maxParse_eq_ofInt, FIE.lt_ofInt _ _ (by omega) (by decide)]
+    exact decide_eq_false (by omega)
+  · rw [maxParse_eq_ofInt, FIE.lt_ofInt _ _ (by decide) (by omega)]
+    exact decide_eq_false (by omega)
+
+theorem IntTime.inLimit {x : Float} (h : IntTime x) : InLimit x := by
+  obtain ⟨z, hz, rfl⟩ := h
+  exact inLimit_ofInt z hz
+
+/-- `f64::max` on integer values is the integer maximum. -/
+theorem max_ofInt (a b : Int) (ha : a.natAbs < 2 ^ 53) (hb : b.natAbs < 2 ^ 53) :
+    Scalar.max (Float.ofInt a) (Float.ofInt b) = Float.ofInt (max a b) := by
+  unfold Scalar.max
+  rw [FIE.lt_ofInt a b ha hb, FIE.isNaN_ofInt_scalar a ha]
+  by_cases h : a < b
+  · rw [if_pos (decide_eq_true h)]; congr 1; omega
+  · rw [if_neg (by simpa using h), if_neg (by decide)]; congr 1; omega
+
+/-- **the four clauses on an integer span**: the end time `start + duration` is the integer `a + k`, not NaN and within
+the limit, and both re-derivations give the duration back bit for bit. -/
+theorem intSpan_laws (t d : Float) (h : IntSpan t d) :
+    (IeeeRep64 (t + d) ∧ InLimit (t + d)) ∧ Scalar.max ((t + d) - t) 0 = d ∧ Scalar.max t (t + d) - t = d := by
+  obtain ⟨a, k, ha, hk, hak, rfl, rfl⟩ := h
+  have hsum : Float.ofInt a + Float.ofInt k = Float.ofInt (a + k) :=
+    FIE.add_int_exact_float a k (by omega) (by omega) (by omega)
+  have hback : Float.ofInt (a + k) - Float.ofInt a = Float.ofInt k := by
+    rw [FIE.sub_int_exact_float (a + k) a (by omega) (by omega) (by omega)]; congr 1; omega
+  have hlim := inLimit_ofInt (a + k) (by omega)
+  refine ⟨⟨by rw [hsum]; exact hlim.2.2, by rw [hsum]; exact hlim⟩, ?_, ?_⟩
+  · rw [hsum, hback, zero_eq_ofInt, max_ofInt k 0 (by omega) (by decide)]; congr 1; omega
+  · rw [hsum, max_ofInt a (a + k) (by omega) (by omega), show max a (a + k) = a + k by omega, hback]
+
+/-- a spinner line with integer start and end times stores an integer span. -/
+theorem intSpan_spinner (t e : Float) (ht : IntTime t) (he : IntTime e) : IntSpan t (Scalar.max (e - t) 0) := by
+  obtain ⟨a, ha, rfl⟩ := ht
+  obtain ⟨b, hb, rfl⟩ := he
+  refine ⟨a, max (b - a) 0, by omega, by omega, by omega, rfl, ?_⟩
+  rw [FIE.sub_int_exact_float b a (by omega) (by omega) (by omega), zero_eq_ofInt,
+    max_ofInt (b - a) 0 (by omega) (by decide)]
+
+/-- a hold-note line with integer start and end times stores an integer span. -/
+theorem intSpan_hold (t e : Float) (ht : IntTime t) (he : IntTime e) : IntSpan t (Scalar.max t e - t) := by
+  obtain ⟨a, ha, rfl⟩ := ht
+  obtain ⟨b, hb, rfl⟩ := he
+  refine ⟨a, max a b - a, by omega, by omega, by omega, rfl, ?_⟩
+  rw [max_ofInt a b (by omega) (by omega), FIE.sub_int_exact_float (max a b) a (by omega) (by omega) (by omega)]
+
+/-- **`DurLaws` holds of IEEE doubles on integer times** — all four clauses, bit for bit (`FIE.add_int_exact_float`,
+`FIE.sub_int_exact_float`: no rounding below `2^53`; a zero duration is `+0.0`). -/
+theorem durLawsOn_float : DurLawsOn Float IeeeRep64 IntTime where
+  spinnerStop := fun t d ht hd => (intSpan_laws _ _ (intSpan_spinner t d ht hd)).1
+  spinnerBack := fun t d ht hd => (intSpan_laws _ _ (intSpan_spinner t d ht hd)).2.1
+  holdStop := fun t e ht he => (intSpan_laws _ _ (intSpan_hold t e ht he)).1
+  holdBack := fun t e ht he => (intSpan_laws _ _ (intSpan_hold t e ht he)).2.2
+
+/-- non-vacuity on actual doubles: start `-5`, end `2147483647` (the limit), and the clauses as the kernel computes them. -/
+example : IntTime (Float.ofInt (-5)) ∧ IntTime (Float.ofInt 2147483647) ∧
+    (Float.ofInt (-5) + Scalar.max (Float.ofInt 2147483647 - Float.ofInt (-5)) 0).toBits = (Float.ofInt 2147483647).toBits ∧
+    (Scalar.max ((Float.ofInt (-5) + Scalar.max (Float.ofInt 2147483647 - Float.ofInt (-5)) 0) - Float.ofInt (-5)) 0).toBits =
+      (Float.ofInt 2147483652).toBits :=
+  ⟨⟨-5, by decide, rfl⟩, ⟨2147483647, by decide, rfl⟩, by decide +kernel, by decide +kernel⟩
+
 end Rosu.C04
